@@ -107,7 +107,7 @@ def run(prop, cfg, tier, seed):
     for (tool, nq, nt, extra) in cfg.get("tools", []):
         from . import tool_check
         n = nq if tier == "quick" else nt
-        r = tool_check.run_tool(tool, seed, n, extra, pigeon=False)
+        r = tool_check.run_tool(tool, seed, n, extra, pigeon=False, prop=prop)
         tool_reports[tool] = {k: r.get(k) for k in ("evaluations", "distinct_nontrivial", "failure_count", "failures_by_kind", "wall_s", "stats")}
         for f in (r.get("failures") or []):
             f = tool_check.keep_failure_file(prop, dict(f))
@@ -128,7 +128,10 @@ def run(prop, cfg, tier, seed):
         if nviol > 3:
             return
         scl = cl
-        if kind == "correspondence" or kind == "oracle":
+        if kind == "correspondence" and visible_diff(cfg, il, ml):
+            # keep the user-visible difference while shrinking: the minimal case is then a failing input
+            scl = h1.shrink(wd, header, cl, prop, nviol, visible=True)
+        elif kind == "correspondence" or kind == "oracle":
             scl = h1.shrink(wd, header, cl, prop, nviol)
         try:
             sil, sml = h1.run_single(header, scl)
@@ -197,7 +200,8 @@ def run(prop, cfg, tier, seed):
     # oracle violations first: they carry a concrete failing input
     for d in sr.oracle_viol[:3]:
         report("oracle", d[0], d[1], d[2], d[3], d[4] if len(d) > 4 else None)
-    for d in sr.disagree[:max(1, 3 - len(sr.oracle_viol))]:
+    dis = sorted(sr.disagree, key=lambda d: 0 if visible_diff(cfg, d[1], d[2]) else 1) if len(sr.disagree) <= 5000 else sr.disagree
+    for d in dis[:max(1, 3 - len(sr.oracle_viol))]:
         report("correspondence", d[0], d[1], d[2], d[3])
     nviol = max(nviol, (0 if lean_ok else 1) + len(sr.oracle_viol) + len(sr.disagree) + len(tool_fail))
 
@@ -246,8 +250,32 @@ def run(prop, cfg, tier, seed):
     return 1 if nviol else 0
 
 
-def differs(prop, cfg, casefile):
-    """exit 0 iff the single case in casefile still shows a projection difference or an oracle violation"""
+def visible_diff(cfg, il, ml):
+    """does the user-visible part of the result (the property's `visible` projection) differ between the
+    implementation's and the model's result line?"""
+    if not cfg.get("visible"):
+        return False
+    try:
+        ik, mk = il.split(" ", 3)[2], ml.split(" ", 3)[2]
+        if ik not in ("ret", "panic") or mk not in ("ret", "panic"):
+            return False
+        return cfg["visible"](core.parse_result(il)) != cfg["visible"](core.parse_result(ml))
+    except Exception:
+        return False
+
+
+def differs(prop, cfg, casefile, visible=False):
+    """exit 0 iff the single case in casefile still shows a projection difference or an oracle violation
+    (visible=True: iff it still shows a difference in the user-visible projection)"""
+    if visible:
+        header, lines = core.read_cases(casefile)
+        if not lines:
+            return 1
+        try:
+            il, ml = h1.run_single(header, lines[0])
+        except Exception:
+            return 1
+        return 0 if visible_diff(cfg, il, ml) else 1
     header, lines = core.read_cases(casefile)
     if not lines:
         return 1
